@@ -148,6 +148,8 @@ void read_dense(const std::string &fname,
 
     precondition(read(f, n), "File I/O error");
     precondition(read(f, m), "File I/O error");
+    precondition(static_cast<ptrdiff_t>(n) >= 0 && static_cast<ptrdiff_t>(m) >= 0,
+            "Corrupted matrix file (negative size)");
 
     if (row_beg < 0) row_beg = 0;
     if (row_end < 0) row_end = n;
@@ -156,6 +158,9 @@ void read_dense(const std::string &fname,
             "Wrong subset of rows is requested");
 
     ptrdiff_t chunk = row_end - row_beg;
+
+    precondition(m == 0 || static_cast<size_t>(chunk) <= std::vector<Val>().max_size() / static_cast<size_t>(m),
+            "Corrupted matrix file (size is too large)");
 
     v.resize(chunk * m);
 
